@@ -2,6 +2,7 @@ import McpModel.Base.Proto
 import McpModel.TypedTool.Monitor
 import McpModel.TypedTool.HandlerSet
 import McpModel.TypedTool.Refusal
+import McpModel.TypedTool.MarshalFail
 /-!
 Driver for E12 TypedTool (C16).
 
@@ -552,10 +553,29 @@ def engine : Engine MState where
         | (d', .addErr) => (d', { model := "addtool-error" })
         | (d', .accept) => (d', { model := impl })
         | (d', .expected v) => (d', { model := expected, violated := v.map Clause.text })
-    | "call" :: rest =>
+    | "call" :: rest0 =>
+      -- hout=! : json.Marshal refuses the handler's output (MarshalFail.lean)
+      let mfail := getKV rest0 "hout" == some "!"
+      let rest := if mfail then rest0.filter (· != "hout=!") else rest0
       match d.callee (getKV rest "tool") with
       | none => (d, { model := "no-tool" })
       | some td =>
+        if mfail then
+          match (parseCallEv rest) >>= mkCall td with
+          | none => (d, { model := "bad-op" })
+          | some ci =>
+            let out := callMF (refEnv lossy64) td.enforced ci.h ci.args
+            let served := deliver (supportsMultiRoundTrip Generated.TypedTool.multiRoundTripSince d.ver) out
+            let model := renderServed served (showLib (libIn td ci)) "-"
+            match parseObs impl with
+            | none => (d, { model := model })
+            | some (o, l, _) =>
+              if disc l (libIn td ci) then
+                (d, { model := impl, violated := some (Clause.text (.libIn (l.getD false) ((libIn td ci).getD false))) })
+              else if judgeMF (ci.h .null).err.isSome o then
+                (d, { model := model, violated := some "C16: invalid_output_is_error_not_result: the handler's output cannot be marshalled to JSON and the call was not answered by an error" })
+              else (d, { model := model })
+        else
         match (parseCallEv rest) >>= mkCall td with
         | none => (d, { model := "bad-op" })
         | some ci =>
